@@ -52,7 +52,7 @@ impl SingleExecMatcher {
 }
 
 impl Matcher for SingleExecMatcher {
-    fn matches(&self, file_info: &WalkEntry, _: &mut MatcherIO) -> bool {
+    fn matches(&self, file_info: &WalkEntry, matcher_io: &mut MatcherIO) -> bool {
         let mut command = Command::new(&self.executable);
         let path_to_file = if self.exec_in_parent_dir {
             if let Some(f) = file_info.path().file_name() {
@@ -84,6 +84,7 @@ impl Matcher for SingleExecMatcher {
                 }
             }
         }
+        matcher_io.flush_output();
         match command.status() {
             Ok(status) => status.success(),
             Err(e) => {
@@ -138,6 +139,7 @@ impl MultiExecMatcher {
     }
 
     fn run_command(&self, command: &mut argmax::Command, matcher_io: &mut MatcherIO) {
+        matcher_io.flush_output();
         match command.status() {
             Ok(status) => {
                 if !status.success() {
